@@ -10,6 +10,7 @@ import ast
 
 from .. import astutil as A
 from ..fa import FA
+from .effects import Assume, param_truth_atom, call_atom
 
 BLOB = "storage_base.Codec.BlobStrategy"
 FSDS = "storage_filesystem._FilesystemDataSource"
@@ -63,6 +64,9 @@ def check(ck):
     ck.rule(R6, "the memento's content key is the value returned by the codec store, assigned before the memento is written", 2)
 
     fa = FA(ck, BLOB + ".store")
+    P = fa.fi.params
+    ck.need(len(P) >= 4, "BlobStrategy.store: expected (self, data source, key override, object) parameters")
+    ds_p, ov_p, obj_p = P[1], P[2], P[3]
     sha = fa.one([c for c in fa.calls("sha256")], "hashlib.sha256 call")
     ok_alg = A.call_dotted(sha) == "hashlib.sha256"
     ck.ob(R1, fa.key(sha, "algorithm"), ok_alg, "SHA-256" if ok_alg else "the content hash is not hashlib.sha256", fa.where(sha))
@@ -71,54 +75,81 @@ def check(ck):
         ck.ob(R1, fa.key(sha, "same-bytes"), False,
               "the hash is not computed over the local byte string that is written (hashing `%s`)" % A.short(hashed, 40), fa.where(sha))
         return
-    # the digest is used in full
-    hx = [c for c in fa.calls("hexdigest") if A.call_recv(c) is sha]
+    # the digest is used in full (the hexdigest of that very hash object, not a slice of it)
+    def is_sha(rv, at, depth=4):
+        if rv is sha:
+            return True
+        if isinstance(rv, ast.Name) and depth > 0:
+            ds = fa.df.reaching(at, rv.id)
+            return bool(ds) and all(d.kind == "assign" and d.value is not None and is_sha(d.value, d.node, depth - 1) for d in ds)
+        return False
+    hx = [c for c in fa.calls("hexdigest") if fa.nodes(c) and is_sha(A.call_recv(c), fa.nodes(c)[0])]
     par = fa.pm.get(hx[0]) if hx else None
     ok_hex = bool(hx) and not isinstance(par, ast.Subscript)
     ck.ob(R1, fa.key(sha, "full-digest"), ok_hex, "full hexdigest" if ok_hex else "the digest is truncated or not a hex digest", fa.where(sha))
-    outs = fa.some([c for c in fa.calls("output") if A.dotted(A.call_recv(c)) == "data_source"], "data_source.output call")
+    outs = fa.some(_ds_calls(fa, "output", ds_p), "data_source.output call")
+    no_ov = Assume(fa, param_truth_atom(ov_p, False))
+    with_ov = Assume(fa, param_truth_atom(ov_p, True))
+    hashed_roots = {r for i in fa.nodes(sha) for r in _roots(fa, hashed, i)}
+    any_content = False
     for o in outs:
         stream = o.args[1] if len(o.args) > 1 else A.kwarg(o, "data")
-        names = [n for n in ast.walk(stream) if isinstance(n, ast.Name) and n.id == hashed.id] if stream is not None else []
-        same = bool(names) and all(fa.df.same_defs(hashed.id, a, b) for a in fa.nodes(sha) for b in fa.nodes(o))
-        wrap_ok = isinstance(stream, ast.Call) and A.call_attr(stream) == "BytesIO" and len(stream.args) == 1 and isinstance(stream.args[0], ast.Name)
+        # the stream is BytesIO(<the definition of the bytes that were hashed>), through whatever temporaries
+        same = wrap_ok = stream is not None and bool(fa.nodes(o))
+        for i in fa.nodes(o):
+            for (leaf, n) in (no_ov.cases(stream, i, fa.df.IN) if stream is not None else []):
+                if not (isinstance(leaf, ast.Call) and A.call_attr(leaf) == "BytesIO" and len(leaf.args) == 1 and isinstance(leaf.args[0], ast.Name)):
+                    wrap_ok = False
+                    continue
+                if not (hashed_roots and _roots(fa, leaf.args[0], n) == hashed_roots):
+                    same = False
         ck.ob(R1, fa.key(o, "same-bytes"), same and wrap_ok,
               "the bytes written are the bytes hashed (same definition of `%s`)" % hashed.id if same and wrap_ok else
               "the stream written is not BytesIO(%s) of the hashed definition: stored bytes need not hash to their key" % hashed.id, fa.where(o))
-        # key: content key unless an override is given
+        # key: without an override the output key is the content key (derived from the digest); any other key is
+        # the override key and is used only when an override was given
         keyarg = o.args[0] if o.args else A.kwarg(o, "key")
-        ck.need(isinstance(keyarg, ast.Name), "BlobStrategy.store: output key is not a local name")
-        defs = []
-        for i in fa.nodes(o):
-            defs += fa.df.reaching(i, keyarg.id)
+        ck.need(keyarg is not None, "BlobStrategy.store: output call without a key")
         ok_key = True
         why = []
-        content_defs = [d for d in defs if d.value is not None and "call:output_key_for_content_key" in fa.df.deps(d.value, d.node)]
-        other = [d for d in defs if d not in content_defs]
-        if not content_defs:
+        for i in no_ov.live(o):
+            for (leaf, n) in no_ov.cases(keyarg, i):
+                dd = fa.df.deps(leaf, n)
+                if "call:output_key_for_content_key" not in dd:
+                    ok_key = False
+                    why.append("without an override the output key can be `%s`, which is not built from the content hash" % A.short(leaf, 50))
+                elif "call:sha256" not in dd or "call:hexdigest" not in dd:
+                    ok_key = False
+                    why.append("content key does not derive from the sha256 hexdigest")
+                else:
+                    any_content = True
+        for i in with_ov.live(o):
+            for (leaf, n) in with_ov.cases(keyarg, i):
+                dd = fa.df.deps(leaf, n)
+                if "call:output_key_for_content_key" in dd:
+                    if "call:sha256" not in dd or "call:hexdigest" not in dd:
+                        ok_key = False
+                        why.append("content key does not derive from the sha256 hexdigest")
+                elif not ("call:output_key_for_override_key" in dd and "param:" + ov_p in dd):
+                    ok_key = False
+                    why.append("the output key is redefined to something that is neither the content key nor the override key (%s)" % A.short(leaf, 50))
+        o._c07_key = (ok_key, why)
+    for o in outs:
+        ok_key, why = o._c07_key
+        if not any_content:
             ok_key = False
-            why.append("no definition of the output key derives from the content hash")
-        for d in content_defs:
-            dd = fa.df.deps(d.value, d.node)
-            if "call:sha256" not in dd or "call:hexdigest" not in dd:
-                ok_key = False
-                why.append("content key does not derive from the sha256 hexdigest")
-        for d in other:
-            g = fa.enclosing(d.stmt, ast.If)
-            if not (d.value is not None and "call:output_key_for_override_key" in fa.df.deps(d.value, d.node)
-                    and g is not None and A.norm(g.test) == "key_override" and d.stmt in g.body):
-                ok_key = False
-                why.append("the output key is redefined outside `if key_override:` (%s)" % A.head(d.stmt))
-        ck.ob(R1, fa.key(o, "key"), ok_key, "output key = content key unless overridden" if ok_key else "; ".join(why), fa.where(o))
+            why = why + ["no definition of the output key derives from the content hash"]
+        ck.ob(R1, fa.key(o, "key"), ok_key, "output key = content key unless overridden" if ok_key else "; ".join(sorted(set(why))), fa.where(o))
     hd = set()
     for i in fa.nodes(sha):
         hd |= fa.df.deps(hashed, i)
-    ok_enc = "callq:self.encode" in hd and "param:obj" in hd
+    ok_enc = "callq:self.encode" in hd and "param:" + obj_p in hd
     ck.ob(R1, fa.key(sha, "bytes-are-encoding"), ok_enc, "the hashed bytes are the encoding of the stored object" if ok_enc else
           "the hashed bytes are not self.encode(obj)", fa.where(sha))
     ck_f = FA(ck, "storage_base.Codec.Strategy.output_key_for_content_key")
     r = ck_f.one(ck_f.returns(), "return")
-    okc = "attr:content_key.key" in ck_f.deps(r.value) and any(s.startswith("c/") for s in A.strings_in(r.value))
+    cp = ck_f.fi.params[1] if len(ck_f.fi.params) > 1 else "content_key"
+    okc = "attr:%s.key" % cp in ck_f.deps(r.value) and any(s.startswith("c/") for s in A.strings_in(r.value))
     ck.ob(R1, ck_f.key(r), okc, "content keys live under c/<hash>" if okc else "content key path no longer derives from the hash", ck_f.where(r))
 
     # ---- R2
@@ -132,39 +163,82 @@ def check(ck):
     _rest(ck, fa, R3, R4, R5, R6)
 
 
+def _ds_calls(fa, name, recv_param):
+    """Calls `<data source>.name(...)` where the receiver is the given parameter (through any alias)."""
+    out = []
+    for c in fa.calls(name):
+        rv = A.call_recv(c)
+        if rv is None or not fa.nodes(c):
+            continue
+        if fa.xnorm(rv, fa.nodes(c)[0]) == recv_param:
+            out.append(c)
+    return out
+
+
+def _roots(fa, name_expr, node_id, depth=8):
+    """The definitions a local name ultimately stands for, following plain aliases `a = b`:
+    a set of (cfg node, name) — ('param', name) for a parameter."""
+    out = set()
+    if not isinstance(name_expr, ast.Name):
+        return out
+    for d in fa.df.reaching(node_id, name_expr.id):
+        if d.kind == "param":
+            out.add(("param", d.name))
+        elif d.kind == "assign" and isinstance(d.value, ast.Name) and depth > 0:
+            sub = _roots(fa, d.value, d.node, depth - 1)
+            out |= sub if sub else {(d.node, d.name)}
+        else:
+            out.add((d.node, d.name))
+    return out
+
+
 def _check_dedupe(ck, fa, ex, outs, R2):
-    ex_nodes = [i for i in fa.nodes(ex) if fa.cfg.node(i).kind == "test"]
-    ck.need(ex_nodes, "BlobStrategy.store: existence test is not a branch condition")
-    ov_nodes = [n.id for n in fa.cfg.nodes if n.kind == "test" and A.norm(n.ast) == "key_override"]
+    """Decided on what is reachable under assumptions about the two facts that matter (is there an override?
+    does the content key exist?), not on the shape of the tests."""
+    P = fa.fi.params
+    ov_p = P[2] if len(P) > 2 else "key_override"
+    EX = ("exists_nonversioned",)
+    present = Assume(fa, param_truth_atom(ov_p, False, call_atom(EX, True)))
+    absent = Assume(fa, param_truth_atom(ov_p, False, call_atom(EX, False)))
+    with_ov = Assume(fa, param_truth_atom(ov_p, True))
     out_nodes = fa.nodes_all(outs)
-    def edge_ok(s, d, l):
-        if s in ov_nodes and l == "T":
-            return False
-        if s in ex_nodes and l == "F":
-            return False
-        return True
-    live = fa.cfg.reach([fa.cfg.entry], edge_ok=edge_ok)
+    live = present.reach()
     ok = not (set(out_nodes) & live)
     ck.ob(R2, fa.key(ex, "no-write-when-present"), ok, "output is reached only under an override or when the content key is absent" if ok else
           "a new object version is written although the content key exists and no override was given", fa.where(ex))
     # under an override the new bytes are always written (the override location is mutable: the
     # last write must win)
-    for v in ov_nodes:
-        starts = [d for (d, l) in fa.cfg.succ[v] if l == "T"]
-        r = fa.cfg.reach(starts, removed=out_nodes)
-        okw = fa.cfg.exit not in r
-        ck.ob(R2, fa.key(fa.cfg.node(v).ast, "override-always-writes"), okw, "with a key override the object is always written" if okw else
-              "with a key override store() can return without writing (the reuse shortcut also fires for override keys): a second result "
-              "written under the same override key is dropped and reads return the first one", fa.where(ex))
-    # through the T edge: returns get_versioned_key(key) of the same key
-    tl = fa.cfg.reach(ex_nodes, edge_ok=lambda s, d, l: not (s in ex_nodes and l == "F"), include_start=False)
-    rets = [fa.cfg.node(i).ast for i in tl if fa.cfg.node(i).kind == "stmt" and isinstance(fa.cfg.node(i).ast, ast.Return)]
-    okr = bool(rets) and all(isinstance(x.value, ast.Call) and A.call_attr(x.value) == "get_versioned_key"
-                             and [A.norm(a) for a in x.value.args] == [A.norm(ex.args[0])] for x in rets[:1])
+    ov_tests = [n for n in fa.cfg.nodes if n.kind == "test" and n.id in fa.cfg.reachable_nodes() and with_ov.truth(n.ast, n.id) is not None]
+    okw = fa.cfg.exit not in with_ov.reach(removed=out_nodes)
+    ck.ob(R2, fa.key(ov_tests[0].ast if ov_tests else None, "override-always-writes"), okw, "with a key override the object is always written" if okw else
+          "with a key override store() can return without writing (the reuse shortcut also fires for override keys): a second result "
+          "written under the same override key is dropped and reads return the first one", fa.where(ex))
+    # content key present, no override: what is returned is get_versioned_key(<that content key>)
+    ex_keys = set()
+    for i in fa.nodes(ex):
+        ex_keys |= present.texts(ex.args[0], i) if ex.args else set()
+    rets = [fa.cfg.node(i).ast for i in sorted(live) if fa.cfg.node(i).kind == "stmt" and isinstance(fa.cfg.node(i).ast, ast.Return)]
+    okr = bool(rets) and bool(ex_keys)
+    for x in rets:
+        for i in present.live(x):
+            for (leaf, n) in (present.cases(x.value, i) if x.value is not None else [(None, i)]):
+                if not (isinstance(leaf, ast.Call) and A.call_attr(leaf) == "get_versioned_key" and len(leaf.args) == 1
+                        and present.texts(leaf.args[0], n) == ex_keys):
+                    okr = False
     first = rets[0] if rets else ex
     ck.ob(R2, fa.key(first, "reuse-existing"), okr, "the existing versioned key of the same key is returned" if okr else
           "the dedupe path does not return get_versioned_key(<content key>)", fa.where(first))
-    exarg_ok = ex.args and isinstance(ex.args[0], ast.Name) and ex.args[0].id == (outs[0].args[0].id if outs[0].args and isinstance(outs[0].args[0], ast.Name) else None)
+    # the key tested is the content key, and it is the key that is written when the test fails
+    exarg_ok = bool(ex_keys)
+    for i in fa.nodes(ex):
+        for (leaf, n) in (absent.cases(ex.args[0], i) if ex.args else []):
+            if "call:output_key_for_content_key" not in fa.df.deps(leaf, n):
+                exarg_ok = False
+    for o in outs:
+        keyarg = o.args[0] if o.args else A.kwarg(o, "key")
+        for i in absent.live(o):
+            if keyarg is None or absent.texts(keyarg, i) != ex_keys:
+                exarg_ok = False
     ck.ob(R2, fa.key(ex, "tests-content-key"), bool(exarg_ok), "the existence test is on the content key" if exarg_ok else
           "the existence test is not on the key that would be written", fa.where(ex))
 
@@ -181,18 +255,31 @@ def check_override_namespace(ck, R):
     prefix = tm[0][0][:-2]            # 'c/'
     stem = prefix.rstrip("/")
     ov = FA(ck, "storage_base.Codec.Strategy.output_key_for_override_key")
-    guards = []
-    for n in ov.cfg.nodes:
-        if n.kind == "test" and (prefix in A.strings_in(n.ast) or stem in A.strings_in(n.ast)):
-            guards.append(n)
+    kp = ov.fi.params[-1] if ov.fi.params else "override_key"
+    hits = [0]
+
+    def under_prefix(e):
+        """assumption: the override key is a (non-empty) key that lies under the content prefix"""
+        if isinstance(e, ast.Name) and e.id == kp:
+            return True
+        if isinstance(e, (ast.Compare, ast.Call)) and (prefix in A.strings_in(e) or stem in A.strings_in(e)) \
+                and kp in A.names_in(e) and not (isinstance(e, ast.Compare) and type(e.ops[0]) in (ast.NotEq, ast.NotIn, ast.IsNot)):
+            hits[0] += 1
+            return True
+        return None
+    asm = Assume(ov, under_prefix)
+    # an `assert` the assumption falsifies raises
+    failing = [n.id for n in ov.cfg.nodes if n.kind == "stmt" and isinstance(n.ast, ast.Assert) and asm.truth(n.ast.test, n.id) is False]
+    live = asm.reach(removed=failing)
     ok = False
-    for g in guards:
-        # on the guard's positive side the function does not return a key built from the raw override
-        raises = [r for r in ov.stmts(ast.Raise)]
-        if any(ov.inside(r, ov.pm.get(g.ast)) for r in raises if isinstance(ov.pm.get(g.ast), ast.If)):
-            ok = True
-        if any(A.call_attr(c) in ("replace", "quote", "format") for c in A.calls_in(ov.pm.get(g.ast)) if isinstance(ov.pm.get(g.ast), ast.If)):
-            ok = True
+    if ov.cfg.exit not in live:
+        ok = True        # refused on every path
+    else:
+        # or escaped: every key returned for such an override is rewritten (quoted / prefix replaced)
+        rets = [ov.cfg.node(i) for i in live if ov.cfg.node(i).kind == "stmt" and isinstance(ov.cfg.node(i).ast, ast.Return)]
+        ok = bool(rets) and all(r.ast.value is not None and any(A.call_attr(c) in ("replace", "quote") for c in A.calls_in(ov.expand(r.ast.value, r.id)))
+                                for r in rets)
+    ok = ok and hits[0] > 0
     ck.ob(R, ov.key(None, "override-outside-content-namespace"), ok,
           "override keys under %r are refused / escaped" % prefix if ok else
           "a key override is used verbatim, also when it lies under %r: KeyOverrideResult(x, '%s<sha of other bytes>') puts an object under a content "
@@ -228,6 +315,48 @@ def check_who_may_delete(ck, R4):
     return sites
 
 
+def _namedtuple_fields(ck, modname, must_have):
+    """Field list of the module-level namedtuple that has the given fields (the partition index entry)."""
+    m = ck.repo.module(modname)
+    for n in ast.walk(m.tree):
+        if isinstance(n, ast.Call) and A.call_attr(n) == "namedtuple" and len(n.args) == 2:
+            f = n.args[1]
+            names = [A.const_str(e) for e in f.elts] if isinstance(f, (ast.List, ast.Tuple)) else (A.const_str(f) or "").replace(",", " ").split()
+            if all(x in names for x in must_have):
+                return names
+        if isinstance(n, ast.ClassDef) and any(A.norm(b).endswith("NamedTuple") for b in n.bases):
+            names = [st.target.id for st in n.body if isinstance(st, ast.AnnAssign) and isinstance(st.target, ast.Name)]
+            if all(x in names for x in must_have):
+                return names
+    return list(must_have)
+
+
+def _entry_field(fa, expr, node_id, fields, depth=6):
+    """`expr` as a field of a record: (name-independent text of the record, field name) for `rec.field`,
+    `rec[i]`, or a local bound by `a, b, _ = rec` / `x = rec.field`; None otherwise."""
+    if depth <= 0:
+        return None
+    if isinstance(expr, ast.Attribute):
+        return (fa.xnorm(expr.value, node_id), expr.attr)
+    if isinstance(expr, ast.Subscript) and isinstance(expr.slice, ast.Constant) and isinstance(expr.slice.value, int) \
+            and 0 <= expr.slice.value < len(fields):
+        return (fa.xnorm(expr.value, node_id), fields[expr.slice.value])
+    if isinstance(expr, ast.Name):
+        ds = fa.df.reaching(node_id, expr.id)
+        if len(ds) != 1:
+            return None
+        d = ds[0]
+        if d.kind == "assign" and d.value is not None:
+            return _entry_field(fa, d.value, d.node, fields, depth - 1)
+        if d.kind == "unpack" and isinstance(d.stmt, ast.Assign) and len(d.stmt.targets) == 1 and isinstance(d.stmt.targets[0], (ast.Tuple, ast.List)):
+            elts = d.stmt.targets[0].elts
+            if len(elts) == len(fields) and not any(isinstance(e, ast.Starred) for e in elts):
+                for i, e in enumerate(elts):
+                    if isinstance(e, ast.Name) and e.id == expr.id:
+                        return (fa.xnorm(d.value, d.node), fields[i])
+    return None
+
+
 def _rest(ck, fa, R3, R4, R5, R6):
     # ---- R3
     strat = ck.repo.cls("storage_base.Codec.Strategy")
@@ -243,8 +372,11 @@ def _rest(ck, fa, R3, R4, R5, R6):
             okn = all(r.value is None or A.is_none(r.value) for r in f2.returns())
             ck.ob(R3, f2.key(None), okn, "constant load" if okn else "load neither reads versioned data nor is constant", f2.where())
             continue
-        ok = all(A.call_attr(x) == "input_versioned" and [A.norm(a) for a in x.args] == ["key"] for x in reads) and \
-            all([A.norm(a) for a in x.args][1:] == ["data_source", "key"] for x in ctor)
+        LP = f2.fi.params
+        ds_l, key_l = (LP[1], LP[2]) if len(LP) >= 3 else ("data_source", "key")
+        xn = lambda call: [f2.xnorm(a, f2.nodes(call)[0]) for a in call.args] if f2.nodes(call) else None
+        ok = all(A.call_attr(x) == "input_versioned" and xn(x) == [key_l] for x in reads) and \
+            all((xn(x) or [])[1:] == [ds_l, key_l] for x in ctor)
         ck.ob(R3, f2.key(None), ok, "load reads input_versioned(key)" if ok else
               "load does not read exactly the versioned key it was given", f2.where())
     for modname in ("storage_base",):
@@ -257,12 +389,23 @@ def _rest(ck, fa, R3, R4, R5, R6):
                                   "a codec reads through the mutable pointer (input_nonversioned): the memento no longer pins its bytes", A.loc(m, call))
     pp = FA(ck, "storage_base.DefaultCodec.PicklePartition.get")
     lc = pp.one(pp.calls("load"), "codec.load call")
-    okp = [pp.xnorm(a, pp.nodes(lc)[0]) for a in lc.args] == ["self._index[key].result_type", "self._data_source", "self._index[key].content_key"]
+    kp = pp.fi.params[1] if len(pp.fi.params) > 1 else "key"
+    fields = _namedtuple_fields(ck, "storage_base", ("result_type", "content_key"))
+    at = pp.nodes(lc)[0]
+    okp = len(lc.args) == 3 and not lc.keywords
+    if okp:
+        rt, ckf = _entry_field(pp, lc.args[0], at, fields), _entry_field(pp, lc.args[2], at, fields)
+        entries = ("self._index[%s]" % kp, "self._index.get(%s)" % kp)
+        okp = rt is not None and ckf is not None and rt[1] == "result_type" and ckf[1] == "content_key" \
+            and rt[0] == ckf[0] and rt[0] in entries and pp.xnorm(lc.args[1], at) == "self._data_source"
     ck.ob(R3, pp.key(None, "loads-indexed-key"), okp, "partition values are loaded by their indexed versioned key" if okp else
           "partition get() does not load (entry.result_type, data source, entry.content_key)", pp.where(lc))
     pi = FA(ck, "storage_base.DefaultCodec.PicklePartition.__init__")
     iv = pi.calls("input_versioned")
-    oki = len(iv) == 1 and [A.norm(a) for a in iv[0].args] == ["self._base_key"] and not pi.calls("input_nonversioned")
+    base_vals = {"self._base_key"} | {pi.xnorm(st.value, pi.nodes(st)[0]) for st in pi.stmts(ast.Assign)
+                                      if any(A.dotted(t) == "self._base_key" for t in st.targets) and pi.nodes(st)}
+    oki = len(iv) == 1 and len(iv[0].args) == 1 and bool(pi.nodes(iv[0])) and pi.xnorm(iv[0].args[0], pi.nodes(iv[0])[0]) in base_vals \
+        and not pi.calls("input_nonversioned")
     ck.ob(R3, pi.key(None, "index-read"), oki, "the partition index is read by its versioned key" if oki else
           "the partition index is not read through its versioned key", pi.where())
 
@@ -291,21 +434,29 @@ def _rest(ck, fa, R3, R4, R5, R6):
     ck.run(check_write_order, ck, "C07.R7", only_output=True)
     # ---- R5
     fo = FA(ck, FSDS + ".output")
-    opens = [c for c in fo.calls("open")]
-    wopen = fo.one([c for c in opens if c in ck.cg.fs_write_sites.get(fo.qual, [])], "write-mode open in output")
-    deps = fo.deps(A.call_recv(wopen)) if A.call_recv(wopen) is not None else fo.deps(wopen.args[0])
+    from .c08 import write_opens, open_path, path_role, OBJ_PATH
+    # the open that receives the object's bytes (a pointer write inlined into output is not it)
+    wopen = fo.one(write_opens(ck, fo)["object"], "write-mode open of the object in output")
+    deps = fo.deps(open_path(wopen))
     ok = "call:uuid4" in deps and "call:_get_path_versioned" in deps
     ck.ob(R5, fo.key(wopen, "fresh-version"), ok, "the object is written under a uuid4() version directory" if ok else
           "the written object path does not contain a fresh uuid4(): an existing version can be overwritten", fo.where(wopen))
     # ... and exactly AT the versioned path (no staging name derived from the key alone, which two
     # writers of the same key would share)
-    recv = A.call_recv(wopen) if A.call_recv(wopen) is not None else (wopen.args[0] if wopen.args else None)
+    recv = open_path(wopen)
     exact = False
     if isinstance(recv, ast.Call) and A.call_attr(recv) == "str" and recv.args:
         recv = recv.args[0]
     if isinstance(recv, ast.Name):
         ds = [d for i in fo.nodes(wopen) for d in fo.df.reaching(i, recv.id)]
         exact = bool(ds) and all(isinstance(d.value, ast.Call) and A.call_attr(d.value) == "_get_path_versioned" and len(d.value.args) == 1 and not d.value.keywords for d in ds)
+    if not exact and recv is not None and fo.nodes(wopen):
+        # the same fact through temporaries / wrappers: the opened path IS the value of the versioned-path builder
+        # called for the object (no metadata key)
+        from .c08 import _strip_path_wrappers
+        e = _strip_path_wrappers(fo.expand(recv, fo.nodes(wopen)[0]))
+        exact = path_role(fo, recv, fo.nodes(wopen)[0]) == "object" and isinstance(e, ast.Call) and A.call_attr(e) == OBJ_PATH \
+            and len(e.args) + len(e.keywords) == 1 and all(k.arg != "metadata_key" for k in e.keywords)
     ck.ob(R5, fo.key(wopen, "written-at-versioned-path"), exact, "bytes are written directly at the fresh versioned path" if exact else
           "the object's bytes are first written to `%s`, a name that is not the fresh versioned path: two writers of the same key share that "
           "file, so one version can end up holding the other's bytes" % A.short(recv, 60), fo.where(wopen))
@@ -321,7 +472,7 @@ def _rest(ck, fa, R3, R4, R5, R6):
         if not q.startswith("storage_filesystem.") and not q.startswith("storage_base."):
             continue
         for n in lst:
-            if isinstance(n, ast.Call) and A.call_attr(n) == "open":
+            if isinstance(n, ast.Call) and A.call_attr(n) in ("open", "write_text", "write_bytes"):
                 fi = ck.cg.funcs[q]
                 ok = q in WRITE_OPEN_SITES
                 ck.ob(R5, "%s::%s" % (q, A.short(n, 50)), ok, WRITE_OPEN_SITES.get(q, "") if ok else
@@ -335,17 +486,75 @@ def _rest(ck, fa, R3, R4, R5, R6):
     # ... for EVERY metadata key string: the object path (the one built without the metadata key)
     # may be selected only by `metadata_key is None`, not by the key's truth value ('' is a key)
     ck.rule("C07.R9", "the object path is selected only when no metadata key is given (`is None`), never by the truth value of the key string", 1)
-    mk_tests = []
-    for n in gp.cfg.nodes:
-        if n.kind == "test":
-            for a in A.test_atoms(n.ast):
-                if "metadata_key" in {x.id for x in ast.walk(a) if isinstance(x, ast.Name)}:
-                    mk_tests.append(a)
-    obj_paths = [r for r in gp.returns() if "param:metadata_key" not in gp.deps(r.value)]
-    none_tests = [a for a in mk_tests if isinstance(a, ast.Compare) and len(a.ops) == 1 and isinstance(a.ops[0], (ast.Is, ast.IsNot))
-                  and A.norm(a.comparators[0]) == "None" and A.norm(a.left) == "metadata_key"]
+    GP = gp.fi.params
+    mk = "metadata_key" if "metadata_key" in GP else (GP[2] if len(GP) > 2 else "metadata_key")
+    # every condition on the metadata key, wherever it is evaluated: if / while tests, conditional expressions,
+    # operands of and / or used for their truth value, assert, comprehension filters
+    conds = []
+    for x in A.walk_body(gp.node):
+        if isinstance(x, (ast.If, ast.While, ast.IfExp, ast.Assert)):
+            conds.append(x.test)
+        elif isinstance(x, ast.BoolOp):
+            conds += x.values[:-1] if not any(x is c_ or x in ast.walk(c_) for c_ in conds) else []
+        elif isinstance(x, ast.comprehension):
+            conds += x.ifs
+
+    def atoms(t):
+        if isinstance(t, ast.UnaryOp) and isinstance(t.op, ast.Not):
+            return atoms(t.operand)
+        if isinstance(t, ast.BoolOp):
+            return [a for v in t.values for a in atoms(v)]
+        return [t]
+
+    def reads_mk(a):
+        if mk in {x.id for x in ast.walk(a) if isinstance(x, ast.Name)}:
+            return True
+        ids = gp.nodes(a)
+        return bool(ids) and any("param:" + mk in gp.df.deps(a, i) for i in ids[:1])
+
+    mk_tests = [a for t in conds for a in atoms(t) if reads_mk(a)]
+
+    def is_none_test(a):
+        if not (isinstance(a, ast.Compare) and len(a.ops) == 1 and isinstance(a.ops[0], (ast.Is, ast.IsNot)) and A.norm(a.comparators[0]) == "None"):
+            return False
+        ids = gp.nodes(a)
+        return A.norm(a.left) == mk or (bool(ids) and gp.xnorm(a.left, ids[0]) == mk)
+
+    none_tests = [a for a in mk_tests if is_none_test(a)]
     bad_t = [a for a in mk_tests if a not in none_tests]
-    ok9 = bool(obj_paths) and not bad_t and (bool(none_tests) or "metadata_key" not in gp.fi.params)
+    # with no metadata key, some returned path is built without it (the object path)
+    from .effects import Assume as _As
+    nokey = _As(gp, lambda e: True if (isinstance(e, ast.Compare) and len(e.ops) == 1 and isinstance(e.ops[0], ast.Is)
+                                       and A.norm(e.left) == mk and A.is_none(e.comparators[0])) else None)
+
+    def prune(e):
+        class Pr(ast.NodeTransformer):
+            def visit_IfExp(self, n):
+                t = nokey.ev(n.test)
+                if t is True:
+                    return self.visit(n.body)
+                if t is False:
+                    return self.visit(n.orelse)
+                return self.generic_visit(n)
+        return Pr().visit(e)
+
+    obj_paths = []
+    for r in gp.returns():
+        for i in nokey.live(r):
+            if r.value is None:
+                continue
+            e = prune(gp.expand(r.value, i))
+            free = {x.id for x in ast.walk(e) if isinstance(x, ast.Name)}
+            dep = mk in free
+            for nm in free:
+                for d in nokey.IN().get(i, ()):
+                    if d.name == nm and d.kind != "param" and d.value is not None:
+                        for (leaf, n) in nokey.cases(d.value, d.node):
+                            if "param:" + mk in gp.df.deps(prune(gp.expand(leaf, n)), n):
+                                dep = True
+            if not dep:
+                obj_paths.append(r)
+    ok9 = bool(obj_paths) and not bad_t and (bool(none_tests) or mk not in gp.fi.params)
     ck.ob("C07.R9", gp.key(None, "object-path-only-for-None"), ok9, "the object path is chosen by `metadata_key is None` (%d test(s))" % len(none_tests) if ok9 else
           "`%s` decides between the object path and the side-car path: the empty metadata key '' is falsy, so "
           "put_metadata('', value, store_with_data=True) opens the result object itself for writing and replaces its bytes"
@@ -357,7 +566,8 @@ def _rest(ck, fa, R3, R4, R5, R6):
     ck.run(check_versioned_key_codec, ck, "C07.R8")
     # ---- R6
     mz = FA(ck, "storage_base.StorageBackendBase.memoize")
-    asgs = [s for s in mz.stmts(ast.Assign) if any(A.dotted(t) == "memento.content_key" for t in s.targets)]
+    mp = mz.fi.params[2] if len(mz.fi.params) > 3 else "memento"
+    asgs = [s for s in mz.stmts(ast.Assign) if any(A.dotted(t) == mp + ".content_key" for t in s.targets)]
     if len(asgs) != 1:
         ck.ob(R6, mz.key(None, "from-store"), False, "memoize assigns memento.content_key %d times: the memento does not record where its bytes are" % len(asgs), mz.where())
         return
@@ -370,7 +580,15 @@ def _rest(ck, fa, R3, R4, R5, R6):
     okb = all(mz.cfg.must_pass(mz.nodes(asg), i) for i in mz.nodes_all(pm_calls))
     ck.ob(R6, mz.key(None, "before-put"), okb, "assigned before the memento is written" if okb else
           "the memento can be written before its content key is set", mz.where(asg))
-    st = mz.one([c for c in mz.calls("store") if A.dotted(A.call_recv(c)) == "self.codec"], "codec.store call")
-    oks = [mz.xnorm(a, mz.nodes(st)[0]) for a in st.args] == ["memento.invocation_metadata.result_type", "self._data_source", "key_override", "result"]
+    from .c08 import recv_calls
+    st = mz.one(recv_calls(mz, "store", "self.codec"), "codec.store call")
+    # by the callee's parameter names, so positional and keyword spellings are the same call
+    cs = ck.repo.try_func("storage_base.Codec.store")
+    cparams = [p_ for p_ in (cs.params if cs is not None else ["self", "result_type", "data_source", "key_override", "obj"]) if p_ != "self"]
+    MP = mz.fi.params
+    want = ["%s.invocation_metadata.result_type" % (MP[2] if len(MP) > 3 else "memento"), "self._data_source",
+            MP[1] if len(MP) > 3 else "key_override", MP[3] if len(MP) > 3 else "result"]
+    got = [A.arg_or_kw(st, i, pn) for i, pn in enumerate(cparams[:4])]
+    oks = all(g is not None for g in got) and [mz.xnorm(a, mz.nodes(st)[0]) for a in got] == want
     ck.ob(R6, mz.key(None, "store-args"), oks, "store(result_type, data source, key_override, result)" if oks else
           "codec.store is not given (result_type, self._data_source, key_override, result)", mz.where(st))
